@@ -19,5 +19,7 @@ Inv == /\ (R.kind \in {"group", "debug"} => \A i \in 1..Len(R.outs) : R.outs[i][
        /\ (R.kind = "group" => \A i \in 1..Len(R.sinks) : /\ R.sinks[i][4] /\ R.sinks[i][2] = 0
                                                             /\ (R.outs # <<>> => R.sinks[i][1] = R.outs[1][1]))
 \* ... and where the output device refuses every write (/dev/full), -o and standard output have the same outcome
-FullInv == R.kind = "group" => /\ R.full[3] /\ R.full[4] /\ R.full[1] = R.full[2]
+\* (that equality was demanded for a while; a device is not "the -o file" of the statement, and a crd that writes a
+\* temporary file and renames it fails differently there.  What stays: neither run hangs or crashes)
+FullInv == R.kind = "group" => /\ R.full[3] /\ R.full[4]
 =============================================================================
